@@ -36,6 +36,19 @@ def w64(v):
 
 
 class array(list):
+    # Guppy arrays have no negative indexing and panic on any index outside 0 <= i < n
+    def _chk(self, i):
+        if isinstance(i, int) and not isinstance(i, bool) and not 0 <= i < len(self):
+            raise RefPanic("Array index out of bounds")
+
+    def __getitem__(self, i):
+        self._chk(i)
+        return list.__getitem__(self, i)
+
+    def __setitem__(self, i, v):
+        self._chk(i)
+        list.__setitem__(self, i, v)
+
     def __init__(self, *args):
         if len(args) == 1 and hasattr(args[0], "__next__"):
             super().__init__(args[0])
